@@ -159,3 +159,15 @@ Example C09_roots_nonvacuous :
                        mkSnap 5 (Some 3) "append" ""; mkSnap 6 (Some 5) "delete" "metadata/manifests/l3"]
   = ["metadata/manifests/l1"; "metadata/manifests/l3"].
 Proof. vm_compute. reflexivity. Qed.
+
+(* The lookups and the snapshot deletion the three theorems above are about are the functions of the SOURCE:
+   Model/Meta.v's by_timestamp, delete_snapshot and most_recent (the "most recently committed survivor" rule) are equal,
+   for all inputs, to the definitions regenerated on every run from SnapshotManager.get_snapshot_by_timestamp,
+   delete_snapshot and _most_recent_snapshot_id (Gen/GenMeta.v, Proofs/MetaGenProofs.v). *)
+Require Import DS.Model.MetaPy DS.Gen.GenMeta DS.Proofs.MetaGenProofs.
+Theorem C09_lookups_regenerated :
+  (forall m t, gen_by_timestamp (snaps m) t = by_timestamp m t)
+  /\ (forall m id, gen_delete_snapshot m id = PyOk (delete_snapshot m id))
+  /\ (forall m, gen_most_recent m = PyOk (most_recent m)).
+Proof. split; [exact gen_by_timestamp_agrees|]. split; [exact gen_delete_snapshot_agrees | exact gen_most_recent_agrees]. Qed.
+Print Assumptions C09_lookups_regenerated.
